@@ -37,9 +37,9 @@ func init() {
 			ms := []string{"CRespCodec).MGet", "CRespCodec).Del", "CRespCodec).MSet"}
 			js = append(js, job(pkgCore, "HarnessC02Req", 1, 2), job(pkgCore, "HarnessC02Req", 3, 1), sites(job(pkgCore, "HarnessC06", 0, 2, 3, 0), ms...))
 			// the mapping has no memory: a long key is looked up again after thousands of other long keys
-			js = append(js, noMapOrder(job(pkgHashkit, "HarnessC05History", 2500, 40)))
+			js = append(js, instrs(noMapOrder(job(pkgHashkit, "HarnessC05History", 2500, 40)), 20_000_000))
 			if tier == "thorough" {
-				js = append(js, noMapOrder(job(pkgHashkit, "HarnessC05History", 10000, 40)), noMapOrder(job(pkgHashkit, "HarnessC05History", 3000, 64)))
+				js = append(js, instrs(noMapOrder(job(pkgHashkit, "HarnessC05History", 10000, 40)), 60_000_000), instrs(noMapOrder(job(pkgHashkit, "HarnessC05History", 3000, 64)), 40_000_000))
 			}
 			if tier == "thorough" {
 				js = append(js, job(pkgCore, "HarnessC02Req", 2, 3), sites(job(pkgCore, "HarnessC06", 2, 2, 2, 1), ms...), sites(job(pkgCore, "HarnessC06", 1, 3, 2, 0), ms...))
@@ -67,6 +67,10 @@ func withSumHash(j *JobCfg) *JobCfg {
 }
 
 func noMapOrder(j *JobCfg) *JobCfg { j.MapOrderOff = true; return j }
+
+// instrs raises the per-path instruction budget of a job whose single paths are long by construction
+// (thousands of concrete lookups / requests in a row)
+func instrs(j *JobCfg, n int) *JobCfg { j.InstrBudget = n; return j }
 
 func sites(j *JobCfg, s ...string) *JobCfg { j.MapOrderSites = s; return j }
 
@@ -101,9 +105,9 @@ func init() {
 			js = append(js, sites(withSumHash(job(pkgCore, "HarnessC06Refused", 0, 3, 1, 0)), ms...), sites(withSumHash(job(pkgCore, "HarnessC06Refused", 1, 2, 1, 0)), ms...), sites(withSumHash(job(pkgCore, "HarnessC06Refused", 2, 2, 1, 1)), ms...))
 			// splitting has no memory: a long history of other splits first (thorough: long enough to wrap 16-bit counters)
 			if tier == "thorough" {
-				js = append(js, noMapOrder(job(pkgCore, "HarnessC06History", 70000)))
+				js = append(js, instrs(noMapOrder(job(pkgCore, "HarnessC06History", 70000)), 600_000_000))
 			} else {
-				js = append(js, noMapOrder(job(pkgCore, "HarnessC06History", 3000)))
+				js = append(js, instrs(noMapOrder(job(pkgCore, "HarnessC06History", 3000)), 40_000_000))
 			}
 			// the real CRC/hash-tag code instead of its specification
 			js = append(js, sites(job(pkgCore, "HarnessC06", 0, 2, 1, 0), ms...), sites(job(pkgCore, "HarnessC06", 0, 2, 3, 0), ms...), sites(job(pkgCore, "HarnessC06", 2, 2, 1, 1), ms...), sites(job(pkgCore, "HarnessC06", 1, 3, 1, 0), ms...))
@@ -415,7 +419,7 @@ func init() {
 		Jobs: func(tier string) []*JobCfg {
 			js := []*JobCfg{job(pkgServer, "HarnessC11Single"), job(pkgServer, "HarnessC07", 1, 2, 1), job(pkgServer, "HarnessC07", 2, 2, 1), job(pkgServer, "HarnessC11Seq", 12, 0), job(pkgServer, "HarnessC11Seq", 40, 1)}
 			if tier == "thorough" {
-				js = append(js, job(pkgServer, "HarnessC07", 0, 2, 1), job(pkgServer, "HarnessC07", 1, 3, 1), job(pkgServer, "HarnessC11Seq", 40, 0), job(pkgServer, "HarnessC11Seq", 300, 1))
+				js = append(js, job(pkgServer, "HarnessC07", 0, 2, 1), job(pkgServer, "HarnessC07", 1, 3, 1), job(pkgServer, "HarnessC11Seq", 40, 0), instrs(job(pkgServer, "HarnessC11Seq", 300, 1), 40_000_000))
 			} else {
 				js = append(js, job(pkgServer, "HarnessC07", 0, 1, 1))
 			}
